@@ -24,14 +24,17 @@ def acts_text(hist):
                 ops.append("sch.%d.%s" % (o["dt"], o["tag"]))
             elif o["op"] in ("uns", "pop"):
                 ops.append("%s.0.%s" % (o["op"], o["tag"]))
+            elif o["op"] == "throw":
+                ops.append("throw")
             else:
                 ops.append(o["op"])
         out.append("+".join(ops) if ops else "-")
     return "/".join(out)
 
 
-def scenario(name, behs, end, nested=False):
-    """behs: list of behaviours (each its own source + sched node) in one graph"""
+def scenario(name, behs, end, nested=False, capture=False):
+    """behs: list of behaviours (each its own source + sched node) in one graph; capture: the scheduler user has an output
+    and its errors are captured per node (its script may throw after the operations of an activation)"""
     lines = ["scn " + name, "opt start=1 end=%d" % end]
     root = []
     nid = 1
@@ -45,6 +48,11 @@ def scenario(name, behs, end, nested=False):
             root.append("n %d nested g=0 in=%d" % (nid + 3, nid))
             b["_id"] = nid + 1
             nid += 4
+        elif capture:
+            root.append("n %d schedo in=%d acts=%s" % (nid + 1, nid, acts_text(b["hist"])))
+            root.append("n %d errof in=%d" % (nid + 2, nid + 1))
+            b["_id"] = nid + 1
+            nid += 3
         else:
             root.append("n %d sched in=%d acts=%s" % (nid + 1, nid, acts_text(b["hist"])))
             b["_id"] = nid + 1
@@ -52,8 +60,9 @@ def scenario(name, behs, end, nested=False):
     return "\n".join(lines + sub + ["graph root"] + root + ["endgraph", "run"])
 
 
-def random_behaviour(rng, maxt):
-    """op-dense scripts (predicted activations unknown: validated by SchedTrace only)"""
+def random_behaviour(rng, maxt, throws=False):
+    """op-dense scripts (predicted activations unknown: validated by SchedTrace only); throws: some evaluations end with an
+    exception after their operations (captured per node) - the scheduler must be left exactly as after a normal return"""
     inputs = sorted(rng.sample(range(1, maxt + 1), rng.randint(0, 3)))
     hist = []
     for k in range(maxt + 2):
@@ -70,6 +79,8 @@ def random_behaviour(rng, maxt):
                 ops.append({"op": "unse", "dt": 0, "tag": ""})
             else:
                 ops.append({"op": "reset", "dt": 0, "tag": ""})
+        if throws and k >= 1 and rng.random() < 0.3:
+            ops.append({"op": "throw", "dt": 0, "tag": ""})
         hist.append({"t": None, "ops": ops, "cause": "?"})
     return {"inputs": inputs, "hist": hist}
 
@@ -116,7 +127,11 @@ def main():
             cases.append(("sim2-%d" % k, [b, json.loads(json.dumps(behs[(k * 7 + 1) % len(behs)]))], False))
     for k in range(300 if quick else 6000):
         cases.append(("rnd%d" % k, [random_behaviour(rng, 6)], k % 4 == 3))
-    scns = [scenario(name, bs, 7, nested) for name, bs, nested in cases]
+    ncap = 0
+    for k in range(150 if quick else 3000):
+        cases.append(("rndT%d" % k, [random_behaviour(rng, 6, throws=True)], False))
+        ncap += 1
+    scns = [scenario(name, bs, 7, nested, capture=name.startswith("rndT")) for name, bs, nested in cases]
     traces = hg.run_driver("engine", scns)
     items = []
     drift = 0
@@ -126,6 +141,13 @@ def main():
             chk.violation("crash:" + name.rstrip("0123456789"), "driver crashed/hung: %s" % json.dumps(tr)[:300], "# %s\n%s\n" % (name, scn))
             continue
         items.append({"id": k, "prog": {"start": 1, "end": 7}, "ev": tr})
+        if name.startswith("rndT"):
+            nthrow = sum(1 for e in tr if e["e"] == "sthrow")
+            nerr = sum(1 for e in tr if e["e"] == "err")
+            chk.notes["captured_throws"] = chk.notes.get("captured_throws", 0) + nthrow
+            if nthrow != nerr or not any(e["e"] == "ret" and e.get("ok") == 1 for e in tr):
+                chk.violation("sched:throw-not-captured", "scheduler user with per-node error capture: %d exception(s) thrown, %d error tick(s), run %s"
+                              % (nthrow, nerr, [e for e in tr if e["e"] == "ret"]), "# %s\n%s\n" % (name, scn))
         # level B prediction: the activation times of the model
         for b in bs:
             if b["hist"][0]["t"] is None or nested:
